@@ -13,6 +13,7 @@ import Proofs.TreeSep
 import Proofs.TreeHist
 import Proofs.TreeGetVar
 import Proofs.TreeChildren
+import Proofs.TreeLookup
 import Proofs.LibSrc
 namespace Pydap.C12
 open Pydap.Quote Pydap.Tree
@@ -277,6 +278,106 @@ theorem C12_get_var_children (root c : Obj) (cs : List Obj) (hr : invObj root = 
 
 example : (do let ds ← exTree; getVar ds exLeaf.hdr.id).toOption = some exLeaf
     ∧ exLeaf.hdr.id = [[115], [46], [97], [37], [50], [48], [98]] := by decide
+
+/-! ## lookups: `obj[key]` with any string — observations that leave the store alone
+
+`HOp` (PydapModel/Heap.lean) is the alphabet of a client program: the edits above and `lookup h path key`
+(`handles[h][path…][key]`, `key` a name, a dotted id, a relative dotted path, anything).  `lookupSegs` (PydapModel/Tree.lean)
+is `_getitem_string` of Structure/Sequence/Grid/Dataset with its dotted fall-back and `BaseType.__getitem__`.
+The correspondence run looks every variable's id and relative path up on every container above it after *every*
+operation, and at random positions in between, on the real classes and in the model. -/
+
+/-- **lookups do not change the state**: a history with lookups interleaved anywhere reaches the store that its
+    edits alone reach -/
+theorem C12_lookups_change_nothing (hs : List HOp) (s : State) :
+    runH s hs = run s (edits hs) ∧ ∀ h path key, stepH s (.lookup h path key) = s :=
+  ⟨runH_eq_run hs s, fun _ _ _ => rfl⟩
+
+/-- **the answer of a lookup depends only on the tree reached**: two histories with the same edits — whatever was
+    looked up in between, before or after any edit — answer every lookup alike -/
+theorem C12_lookup_history_independent (hs hs' : List HOp) (he : edits hs = edits hs') (h : Nat) (path : List Str)
+    (key : Str) :
+    lookupAt (runH State.init hs) h path key = lookupAt (runH State.init hs') h path key := by
+  rw [runH_eq_run, runH_eq_run, he]
+
+/-- **lookup after edit = lookup in the edited tree**: the answers a history yields (`answers`: what the driver
+    prints and the correspondence compares with the real `obj[key]`) are, lookup by lookup, the answers in the store
+    reached by the edits made before that lookup -/
+theorem C12_lookup_sees_edits (s : State) (pre post : List HOp) (h : Nat) (path : List Str) (key : Str) :
+    answers s (pre ++ .lookup h path key :: post)
+      = answers s pre ++ lookupAt (run s (edits pre)) h path key :: answers (run s (edits pre)) post := by
+  rw [answers_append, runH_eq_run]
+  rfl
+
+/-- **`dataset[v.id] is v` after every history**: after any history over the full alphabet with lookups
+    interleaved anywhere (scope as in `C12_invariant_all_histories`), for every live dataset and every variable `v`
+    reached through listed children (names `ns`, free of `/`: the DAP4 path branch is not modelled), looking `v.id`
+    up on the dataset — the direct hit fails, the dotted fall-back of `_getitem_string` walks the chain — returns `v`
+    itself, and so does the dotted chain of the names -/
+theorem C12_lookup_id (hs : List HOp) (hok : ∀ op ∈ edits hs, op.scope = true) (h : Nat) (root v : Obj)
+    (ns : List Str) (hg : (runH State.init hs).get h = .ok root) (hd : root.hdr.kind = .dataset)
+    (hc : Chain root ns v) (hsl : ∀ n ∈ ns, n.contains slash = false) :
+    lookupAt (runH State.init hs) h [] v.hdr.id = .ok (.obj v)
+    ∧ lookupAt (runH State.init hs) h [] (List.intercalate [dot] ns) = .ok (.obj v) := by
+  rw [runH_eq_run] at hg ⊢
+  have hgood := run_good (edits hs) State.init good_init (fun op ho => (Op.ok_iff_scope op).2 (hok op ho))
+  have hm : some root ∈ (run State.init (edits hs)).handles := by
+    unfold State.get at hg
+    split at hg
+    · rename_i o hh
+      cases hg
+      exact List.mem_of_getElem? hh
+    · cases hg
+  obtain ⟨ho, he⟩ := hgood.1 root hm
+  obtain ⟨_, _, hid, _, _⟩ := getVar_chain root v ns ((invO_iff root).1 ho) hd hc
+  have hl := lookup_path (Path.of_chain hc) ho he (fun _ => hsl)
+  refine ⟨?_, ?_⟩
+  · simp only [lookupAt, hg, navigate, bind, Except.bind]
+    rw [hid]; exact hl
+  · simp only [lookupAt, hg, navigate, bind, Except.bind]
+    rw [← joinDot_eq_intercalate]; exact hl
+
+/-- **relative dotted paths on any container**: in any object satisfying the invariant (a Structure, Sequence, Grid,
+    a detached subtree, a copy, a selection), `o["n1.n2.….nk"]` is the variable reached through the listed children
+    of those names -/
+theorem C12_lookup_relative (o v : Obj) (ns : List Str) (ho : invObj o = true) (he : escO o = true)
+    (hc : Chain o ns v) (hs : o.hdr.kind = .dataset → ∀ n ∈ ns, n.contains slash = false) :
+    lookup o (List.intercalate [dot] ns) = .ok (.obj v) := by
+  rw [← joinDot_eq_intercalate]
+  exact lookup_path (Path.of_chain hc) ((invO_iff o).2 ho) he hs
+
+/-- **a deleted name is gone**: after `del container[key]` looking that name up on the container raises `KeyError`
+    (a stored, hence quoted and dot-free, name; on a dataset not `""` and without `/`) -/
+theorem C12_lookup_deleted (o r : Obj) (key : Str) (ho : invObj o = true) (h : delItem o key = .ok r)
+    (hd : key.contains dot = false) (hq : quote key = key)
+    (hds : o.hdr.kind = .dataset → key ≠ [] ∧ key.contains slash = false) :
+    lookup r key = .error .keyError :=
+  lookup_deleted o r key ((invO_iff o).2 ho) h hd hq hds
+
+/-- the scenario of the memo defect: `d["s"]["t"]["a b"]`; look `s.t.a%20b` up on the dataset, replace the variable
+    through its parent, look it up again (the replacement, identity 5), delete it through its parent, look again -/
+def demo3 : List HOp :=
+  [.op (.new .dataset [[100]] 0), .op (.new .struct [[115]] 0), .op (.set 0 [] [[115]] 1),
+   .op (.new .struct [[116]] 0), .op (.set 0 [[[115]]] [[116]] 2),
+   .op (.new .base [[97], [32], [98]] 1), .op (.set 0 [[[115]], [[116]]] [[97], [32], [98]] 3),
+   .lookup 0 [] [[115], [46], [116], [46], [97], [37], [50], [48], [98]],
+   .op (.new .base [[97], [32], [98]] 2), .op (.set 0 [[[115]], [[116]]] [[97], [32], [98]] 4),
+   .lookup 0 [] [[115], [46], [116], [46], [97], [37], [50], [48], [98]],
+   .lookup 0 [[[115]]] [[115], [46], [116], [46], [97], [32], [98]],
+   .op (.del 0 [[[115]], [[116]]] [[97], [37], [50], [48], [98]]),
+   .lookup 0 [] [[115], [46], [116], [46], [97], [37], [50], [48], [98]]]
+
+example : ∀ op ∈ edits demo3, op.scope = true := by decide
+
+/-- first the original (identity 3, data `a1`), then the replacement (identity 4, data `a2`) — also from `d["s"]`
+    with the id whose first segment is the container's own name and the raw name —, then `KeyError` -/
+example : (answers State.init demo3).map (fun r => match r with
+      | .ok (.obj o) => some (o.hdr.oid, o.hdr.data)
+      | _ => none)
+    = [some (3, .atom 1), some (4, .atom 2), some (4, .atom 2), none]
+    ∧ (answers State.init demo3).map (fun r => match r with
+      | .error .keyError => true
+      | _ => false) = [false, false, false, true] := by decide
 
 /-! ## the tie by translation: the *source text* of `_quote` / `unquote` computes the model's functions
 
